@@ -221,4 +221,40 @@ theorem run_up (sw : Bytes) (st : State) (reqs : List Request) (k : Key) (u : Up
     · intro r hr
       exact hno r (by simp [hr])
 
+/-! ### requests and timeouts -/
+
+theorem expire_up_ne (st : State) (k k' : Key) (h : k ≠ k') : lookupK k (expire st k').up = lookupK k st.up :=
+  lookupK_eraseK_ne k k' st.up h
+
+/-- the event concerns upload `k` legitimately: its own timeout / disconnect, or a served write / abort with its secret -/
+def concerns (sw : Bytes) (k : Key) (s : Bytes) : Event → Prop
+  | .request rq => touches sw k s rq
+  | .expire k' => k' = k
+
+theorem stepEvent_up (sw : Bytes) (st : State) (e : Event) (k : Key) (u : Upload)
+    (h : lookupK k st.up = some u) (hchg : lookupK k (stepEvent sw st e).up ≠ some u) : concerns sw k u.secret e := by
+  cases e with
+  | request rq => exact step_up sw st rq k u h hchg
+  | expire k' =>
+    simp only [stepEvent] at hchg
+    simp only [concerns]
+    apply Decidable.byContradiction
+    intro hne
+    rw [expire_up_ne st k k' (fun hc => hne hc.symm)] at hchg
+    exact hchg h
+
+theorem runEvents_up (sw : Bytes) (st : State) (evs : List Event) (k : Key) (u : Upload)
+    (h : lookupK k st.up = some u) (hno : ∀ e ∈ evs, ¬ concerns sw k u.secret e) :
+    lookupK k (runEvents sw st evs).up = some u := by
+  induction evs generalizing st with
+  | nil => exact h
+  | cons e rest ih =>
+    simp only [runEvents]
+    apply ih
+    · apply Decidable.byContradiction
+      intro hc
+      exact hno e (by simp) (stepEvent_up sw st e k u h hc)
+    · intro e' he'
+      exact hno e' (by simp [he'])
+
 end Tahoe.Http
